@@ -161,6 +161,33 @@ SAMEKEY_FAMILIES = {
     'html_or_text': ['<b>x</b>\n', '\\<b>x\\</b>\n', '`<b>x</b>`\n', '<b>x</b>\n\n<b>x</b> y\n'],
 }
 
+# seeded document synthesiser: templates whose slots are filled from SMALL SHARED pools, so that the documents of one random
+# history keep meeting the same labels, URLs, titles, language names and texts in different roles and with different truths
+POOL = {
+    'label': ['k', 'Foo Bar', 'FOO\nBAR', 'foo  bar', '\u1e9e', 'ss', 'a*b', 'x]y'.replace(']', '\\]')],
+    'url': ['/u', '/u&copy', '/u?a=1&amp=2', '</u rl>', 'http://h/%20', '#frag', ''],
+    'title': ['t', 'T&amp', 'ti "tle', "it's", ''],
+    'lang': ['py', 'nosuchlang', 'c++', '&lt', ''],
+    'text': ['same text', 'x = 1', '<b>x</b>', '&copy', 'a | b', '*em*', '`c`', '#', '-', '1.', '>', '   '],
+}
+TEMPLATES = [
+    '[{label}]: {url} "{title}"\n', '[{label}]: {url}\n', '> [{label}]: {url}\n', '[{label}]\n', '[{text}][{label}]\n', '[{label}][]\n',
+    '![{label}]\n', '[{text}]({url} "{title}")\n', '[{text}]({url})\n', '![{text}]({url})\n', '<{url}>\n',
+    '```{lang}\n{text}\n```\n', '~~~ {lang} {title}\n{text}\n~~~\n', '    {text}\n', '`{text}`\n',
+    '# {text}\n', '## {text} ##\n', '{text}\n===\n', '{text}\n---\n', '{text}\n', '{text}  \n{text}\n',
+    '- {text}\n- {text}\n', '1. {text}\n', '- {text}\n\n  {text}\n', '> {text}\n', '> - {text}\n',
+    '{text} | {text}\n:-|-:\n{text} | {text}\n', '<div>\n{text}\n</div>\n', '<!-- {text} -->\n', '{{{{{text}}}}} !!! {text}\n', '[[{text}|{url}]] ${text}$\n',
+]
+
+
+def synth_doc(rng):
+    parts = []
+    for _ in range(rng.randint(1, 3)):
+        t = TEMPLATES[rng.randrange(len(TEMPLATES))]
+        parts.append(t.format(**{k: v[rng.randrange(len(v))] for k, v in POOL.items()}))
+    return '\n'.join(parts)
+
+
 # one sentinel per row of the state table (systematic sweep uses these right after every fault variant)
 SENTINELS = ['setext2', 'plain', 'code', 'ref_shortcut', 'ref_undefined', 'entity_def', 'headings',
              'fence_tilde', 'html2', 'table_interrupt', 'list_tight', 'list_loose', 'custom', 'quote',
